@@ -427,6 +427,14 @@ def make_app(specs):
     def app(environ, start_response):
         idx = int(environ["PATH_INFO"].strip("/") or 0)
         sp = specs[idx]
+        if sp.get("err"):
+            from hio.core.http import httping
+            if sp["gen"]:
+                def ge():
+                    yield b""
+                    raise httping.HTTPError(sp["err"], title="Denied", detail="not for you")
+                return ge()
+            raise httping.HTTPError(sp["err"], title="Denied", detail="not for you")
         start_response(sp["status"], list(sp["headers"]))
         if sp["gen"]:
             def g():
@@ -461,6 +469,11 @@ def run_c18(rnd, tier, v, stats):
             if cl is not None:
                 hdrs.append(("Content-Length", str(cl)))
             specs.append(dict(status=rnd.choice(["200 OK", "404 Not Found", "201 Created"]), headers=hdrs, pieces=pieces, gen=rnd.random() < 0.5, cl=cl))
+            if rnd.random() < 0.12:      # the application raises hio's HTTPError before any body byte: the server builds the error response itself
+                from hio.core.http import httping as _hh
+                e = _hh.HTTPError(403, title="Denied", detail="not for you")
+                body = e.render()
+                specs[-1].update(err=403, gen=True, status="%s %s" % (e.status, e.reason), pieces=[body], cl=len(body), errhdr=True)
             ver = rnd.choice(["1.1", "1.1", "1.1", "1.0"])
             conn = rnd.choice([None, None, "close", "keep-alive"])
             last = k == nreq - 1
@@ -507,7 +520,7 @@ def run_c18(rnd, tier, v, stats):
             if g["status"] != sp["status"] or g["body"] != exp_body:
                 v("C18/response-differs-from-app-output", dict(inp, index=k, witness_class=_c18_class(reqs, specs)), dict(status=g["status"], body=g["body"][:40]), dict(status=sp["status"], body=exp_body[:40]))
                 break
-            if dict(g["headers"]).get("content-type") != "text/plain":
+            if dict(g["headers"]).get("content-type") != "text/plain" and not sp.get("err"):
                 v("C18/app-header-lost", dict(inp, index=k), g["headers"])
             if g["framing"] == "until-close" and (not last or rq["persistent"]):
                 v("C18/not-self-delimiting-on-open-connection", dict(inp, index=k, witness_class=_c18_class(reqs, specs)), g["framing"])
